@@ -31,6 +31,19 @@ func c15Init(r *Run, short string) *ssa.Function {
 func runC15(r *Run) {
 	r.Assume("the top-level configuration message passed to a validator is non-nil; elements of repeated protobuf fields are non-nil")
 	r.Assume("x509.ParsePKIXPublicKey, anypb.UnmarshalNew, timestamppb.CheckValid, mysql.ParseDSN, pgconn.ParseConfig and ct.SignatureVerifier report malformed input through their error result")
+	// R1 (engine E7): no unguarded dereference of an optional message part and
+	// no unguarded constant index on a library call's result in the
+	// configuration code of package ctfe.
+	r.Rule("C15.R1")
+	r.Assume("library callees outside the module accept nil messages (proto getters are nil-safe and are analysed from their own SSA)")
+	inCtfe := func(fn *ssa.Function) bool {
+		pk := fnPkg(fn)
+		return pk != nil && ShortPkg(pk.Path()) == "trillian/ctfe"
+	}
+	nOpt := r.NilOptional(inCtfe, "*configpb*")
+	r.Floor("optional configuration parts used in ctfe", nOpt, 4)
+	nIdx := r.ConstIndexGuarded(inCtfe)
+	r.Floor("constant indices on library call results", nIdx, 1)
 	r.Rule("C15.R2")
 	c15ValidateLogConfig(r)
 	c15Sets(r)
